@@ -529,7 +529,11 @@ impl Communicator {
     ///
     /// [`capture`]: struct.CommunicateError.html#structfield.capture
     pub fn read(&mut self) -> Result<(Option<Vec<u8>>, Option<Vec<u8>>), CommunicateError> {
-        let deadline = self.time_limit.map(|timeout| Instant::now() + timeout);
+        // A limit too large to be added to the clock (Duration::MAX) never
+        // runs out: no deadline then, instead of a panic.
+        let deadline = self
+            .time_limit
+            .and_then(|timeout| Instant::now().checked_add(timeout));
         match self.inner.read(deadline, self.size_limit) {
             (None, capture) => Ok(capture),
             (Some(error), capture) => Err(CommunicateError { error, capture }),
